@@ -137,7 +137,7 @@ fn assemble(
                 for k in auth.iter().take(copies) {
                     let mut copy = inner.clone();
                     copy.sigs = vec![SigEntry::good(k)];
-                    links.push(LinkFile { step: name.clone(), filed_under: k.clone(), name_field: None, body: Body::Sub { world: Box::new(copy), placement: Placement::Proper } });
+                    links.push(LinkFile { step: name.clone(), filed_under: k.clone(), name_field: None, symlink_store: false, body: Body::Sub { world: Box::new(copy), placement: Placement::Proper } });
                 }
             }
             None => {
@@ -151,7 +151,7 @@ fn assemble(
                         byproducts: ByprodSpec { return_value: Some(p.ret), stdout: Some(String::new()), stderr: Some(String::new()), other: Default::default() },
                         command: p.command.clone(),
                     };
-                    links.push(LinkFile { step: name.clone(), filed_under: k.clone(), name_field: None, body: Body::Link { link, sigs: vec![SigEntry::good(k)], tamper: None } });
+                    links.push(LinkFile { step: name.clone(), filed_under: k.clone(), name_field: None, symlink_store: false, body: Body::Link { link, sigs: vec![SigEntry::good(k)], tamper: None } });
                 }
             }
         }
